@@ -80,6 +80,7 @@ func RunOnce(t *testing.T, w *World, tape *Tape, trace bool, known []KnownFindin
 		c.Params[k] = v
 	}
 	c.Scratch = scratch
+	c.T = t
 	// the order in which the code under test walks its replicated maps is part of the run: a
 	// function of the run's seed (tools/autoyield routes those walks through verifauto.Keys)
 	verifauto.OrderSeed = tape.Seed | 1
